@@ -24,10 +24,12 @@
 //! Oracle: every face is classified by the signs of its vertex distances; a face with vertices on both sides yields one
 //! crossing segment between the two crossing points of its cut edges; the cross-section of a convex solid is the convex
 //! polygon through all edge crossing points (perimeter by angular sort about the centroid).
-use super::Report;
+//! WAVE 5 (second half of the file): parameter-space audit families, see the comment there and notes/w5_audit_C13.md.
+use super::{thorough, Report};
 use crate::geom3::{Curve3, Iso3, Mesh, Plane3, Point3, UnitVec3, Vector3};
 use parry3d_f64::na::{Translation3, UnitQuaternion};
 use parry3d_f64::query::SplitResult;
+use std::collections::HashMap;
 use std::f64::consts::PI;
 
 const EPS: f64 = 1e-9;
@@ -210,6 +212,11 @@ fn check_split_commutes(r: &mut Report, name: &str, m: &Mesh, n: &Vector3, d: f6
 }
 
 fn check_split(r: &mut Report, name: &str, m: &Mesh, n: &Vector3, d: f64) {
+    let am = area(m.vertices(), m.faces());
+    check_split_t(r, name, m, n, d, EPS * (1.0 + d.abs()), EPS * (1.0 + am));
+}
+/// `tol`: absolute tolerance of a distance from the plane, `atol`: absolute tolerance of an area
+fn check_split_t(r: &mut Report, name: &str, m: &Mesh, n: &Vector3, d: f64, tol: f64, atol: f64) {
     let v = m.vertices().to_vec();
     let f = m.faces().to_vec();
     let desc = || format!("{} plane normal ({:?}, {:?}, {:?}) d {:?}", name, n.x, n.y, n.z, d);
@@ -221,11 +228,10 @@ fn check_split(r: &mut Report, name: &str, m: &Mesh, n: &Vector3, d: f64) {
         SplitResult::Negative => r.check(!any_pos, "split: reports Negative only when the mesh is wholly on the negative side of the plane", desc),
         SplitResult::Pair(a, b) => {
             r.check(any_neg && any_pos, "split: yields two meshes only when the plane crosses the mesh", desc);
-            let tol = EPS * (1.0 + d.abs());
             r.check(a.vertices().iter().all(|p| n.dot(&p.coords) - d <= tol), "split: the first mesh lies on the negative side of the plane", desc);
             r.check(b.vertices().iter().all(|p| n.dot(&p.coords) - d >= -tol), "split: the second mesh lies on the positive side of the plane", desc);
             let (aa, ab, am) = (area(a.vertices(), a.faces()), area(b.vertices(), b.faces()), area(&v, &f));
-            r.check(eq(aa + ab, am) && aa > 0.0 && ab > 0.0, "split: the areas of the two meshes sum to the original area", desc);
+            r.check((aa + ab - am).abs() <= atol && aa > 0.0 && ab > 0.0, "split: the areas of the two meshes sum to the original area", desc);
             // the negative part's area, independently: each face contributes its part below the plane
             let mut neg_area = 0.0;
             for t in f.iter() {
@@ -238,7 +244,7 @@ fn check_split(r: &mut Report, name: &str, m: &Mesh, n: &Vector3, d: f64) {
                 }
                 for k in 1..poly.len().max(2) - 1 { neg_area += (poly[k] - poly[0]).cross(&(poly[k + 1] - poly[0])).norm() * 0.5; }
             }
-            r.check(eq(aa, neg_area), "split: the negative part has the area of the mesh below the plane", desc);
+            r.check((aa - neg_area).abs() <= atol, "split: the negative part has the area of the mesh below the plane", desc);
         }
     }
 }
@@ -298,8 +304,73 @@ fn box_row(k: usize, via_options: bool) -> (Mesh, Vec<(usize, usize)>) {
     (m, ranges)
 }
 
+const BOUND: &str = "watertight meshes: box 2x3x4, triangular prism, tetrahedron (convex) and an L-shaped prism (non-convex, sections with two loops), in 5 poses (identity, translation, quarter turn about z + translation, third turn about (1,1,1), quarter turn about x + (600,0,800) = far from the origin); planes: 17 normals (axis-aligned, all sign patterns of (1,1,1), (1,2,2)/3, (2,-3,6)/7, mixed-sign oblique ones) x offsets missing the mesh by 0.5, odd sixteenths of the extent, 0.25 and 2^-12 inside either end (single corners cut off, segments shorter than 1e-3); planes with a mesh vertex closer than 1e-5 skipped; section additionally compared after 9 further rigid motions (cube group + integer translations, a general one, four tiny ones); split additionally on an open two-triangle strip; the plane of every moved configuration is produced by Plane3::transform_by (9 motions incl. a general one: rotation by 0.7 rad about (1,2,2) then +(0.5,-1.25,2), and four with TINY non-zero rotations: 1e-6 rad about (1,2,2) then +(0.5,-1.25,2), 1e-7 rad about z, 1e-8 rad about (0,1,1) then +(1e-8,0,0), -1e-5 rad about (1,-1,0) then +(1000,-500,250); Mesh::transform is compared vertex by vertex with T * vertex for every mesh x motion) and split is compared across them as well; the same solids built with Mesh::new_with_options(is_solid = true, 4 option pairs) / new_with_uv / create_box(.., true) in 2 poses x 9 normals x 6 offsets; 2, 5, 6 and 10 disjoint boxes in one mesh (appended, or new_with_options is_solid = true) in 2 poses x 7 normals x 9 offsets: as many closed loops as boxes crossed; tolerance 1e-9 relative. WAVE 5 (absolute tolerance 1e-9 x mesh size + 4e-12 x largest coordinate; oracle: brute-force crossing segments joined on shared cut edges, closed-form perimeters): the four solids scaled by 2^-10 and 2^10 and moved 2e4 / 1e6 from the origin x 17 normals x 14 offsets (just outside either end, sixteenths, thin cuts scaled and absolute 2^-12, 2^-16 = just above the 1e-5 margin), every plane also written (-n, -d); capped N-gon prisms and Mesh::create_cylinder tubes (planes between the rims) with 5, 33, 65, 257, 1100, 2100 sides (up to 8396 faces, 4200 crossing segments) (thorough: 4100) with closed-form perimeters; UV spheres 8x12, 24x48, 200x330 (65672 vertices; thorough 300x500); tori 24x16, 64x40 (two congruent / nested loops); solids under 7x7, 20x20, 40x40 height fields (up to 146 contours; thorough 90x90); prisms over cell sets (U, combs with 3 and 4 teeth, square ring, two pieces), a box nested in a box; every solid under 5 other numberings, flagged non-solid, and as a triangle soup merged by new_with_options; curve tolerance None / 0 / 1e-12 / 1e-6 / 1e-4 / 5e-3 / 0.05 / 0.75 / 10 against the shortest crossing segment (below: every clause; at or above: incidence and closedness within tol) with mesh vertices 0.004 / 0.03 / 0.3 from the plane; robustness probes: planes through every vertex triple of box, cube, prism, tetrahedron, L-prism in both orientations and offsets bit-equal to / one ulp off the extreme vertex distances (planes on which parry 0.18 does not return are recognised by a re-enactment of its walk and not run; one of them runs in a child process under its own clause); sequences: same section twice, section after split, halves split again by the same and by a second plane";
+
+/// The enumerated families run in a CHILD process (this binary again with C13_CHILD = main, `ulimit -v` 6 GB, deadline
+/// 900 s): a change that makes parry's walk meet a dead end (a wrong plane, a wrong on-plane epsilon) would otherwise
+/// not return and exhaust the machine's memory; the child's abnormal end is reported as a failing clause with the last
+/// block it started.  Without `sh` the families run in this process.
 pub fn run() -> Option<Report> {
-    let mut r = Report::new("watertight meshes: box 2x3x4, triangular prism, tetrahedron (convex) and an L-shaped prism (non-convex, sections with two loops), in 5 poses (identity, translation, quarter turn about z + translation, third turn about (1,1,1), quarter turn about x + (600,0,800) = far from the origin); planes: 17 normals (axis-aligned, all sign patterns of (1,1,1), (1,2,2)/3, (2,-3,6)/7, mixed-sign oblique ones) x offsets missing the mesh by 0.5, odd sixteenths of the extent, 0.25 and 2^-12 inside either end (single corners cut off, segments shorter than 1e-3); planes with a mesh vertex closer than 1e-5 skipped; section additionally compared after 9 further rigid motions (cube group + integer translations, a general one, four tiny ones); split additionally on an open two-triangle strip; the plane of every moved configuration is produced by Plane3::transform_by (9 motions incl. a general one: rotation by 0.7 rad about (1,2,2) then +(0.5,-1.25,2), and four with TINY non-zero rotations: 1e-6 rad about (1,2,2) then +(0.5,-1.25,2), 1e-7 rad about z, 1e-8 rad about (0,1,1) then +(1e-8,0,0), -1e-5 rad about (1,-1,0) then +(1000,-500,250); Mesh::transform is compared vertex by vertex with T * vertex for every mesh x motion) and split is compared across them as well; the same solids built with Mesh::new_with_options(is_solid = true, 4 option pairs) / new_with_uv / create_box(.., true) in 2 poses x 9 normals x 6 offsets; 2, 5, 6 and 10 disjoint boxes in one mesh (appended, or new_with_options is_solid = true) in 2 poses x 7 normals x 9 offsets: as many closed loops as boxes crossed; tolerance 1e-9 relative");
+    match std::env::var("C13_CHILD").as_deref() {
+        Ok("touching-edge") => touching_edge_child(),
+        Ok("main") => {
+            let mut r = Report::new("");
+            run_all(&mut r);
+            println!("C13-CHILD-COUNTS {} {}", r.cases, r.checks);
+            flush_failures(&r);
+            println!("C13-CHILD-DONE");
+            std::process::exit(0);
+        }
+        _ => {}
+    }
+    let mut r = Report::new(BOUND);
+    if !run_all_in_child(&mut r) { run_all(&mut r); }
+    touching_edge_watchdog(&mut r);
+    open_mesh_watchdog(&mut r);
+    Some(r)
+}
+
+/// progress marker of the child process (line-buffered: survives an abort)
+/// (also hands over the failures recorded so far, so that they are not lost with the child)
+fn mark(r: &Report, what: &str) {
+    if std::env::var("C13_CHILD").is_ok() { flush_failures(r); println!("C13-CHILD-AT {}", what); }
+}
+static PRINTED: std::sync::atomic::AtomicUsize = std::sync::atomic::AtomicUsize::new(0);
+fn flush_failures(r: &Report) {
+    let from = PRINTED.swap(r.failures.len(), std::sync::atomic::Ordering::SeqCst);
+    for f in r.failures.iter().skip(from) { println!("C13-CHILD-FAIL {}", f.replace('\n', " ")); }
+}
+
+fn run_all_in_child(r: &mut Report) -> bool {
+    use std::io::{BufRead, BufReader};
+    use std::process::{Command, Stdio};
+    let exe = match std::env::current_exe() { Ok(e) => e, Err(_) => return false };
+    let spawned = Command::new("sh").arg("-c").arg("ulimit -v 6000000; exec \"$0\" bounded C13").arg(&exe).env("C13_CHILD", "main").stdin(Stdio::null()).stdout(Stdio::piped()).stderr(Stdio::null()).spawn();
+    let mut child = match spawned { Ok(c) => c, Err(_) => return false };
+    let stdout = match child.stdout.take() { Some(o) => o, None => { let _ = child.kill(); let _ = child.wait(); return false; } };
+    let reader = std::thread::spawn(move || BufReader::new(stdout).lines().filter_map(|l| l.ok()).collect::<Vec<String>>());
+    let t0 = std::time::Instant::now();
+    let mut status: Option<String> = None;
+    while t0.elapsed().as_secs() < 900 {
+        match child.try_wait() { Ok(Some(s)) => { status = Some(format!("{}", s)); break; } Ok(None) => std::thread::sleep(std::time::Duration::from_millis(20)), Err(_) => break }
+    }
+    if status.is_none() { let _ = child.kill(); let _ = child.wait(); }
+    let lines = reader.join().unwrap_or_default();
+    let mut done = false;
+    let mut last = String::from("(none)");
+    for l in lines.iter() {
+        if let Some(x) = l.strip_prefix("C13-CHILD-AT ") { last = x.to_string(); }
+        else if let Some(x) = l.strip_prefix("C13-CHILD-COUNTS ") { let mut it = x.split(' '); r.cases += it.next().and_then(|s| s.parse().ok()).unwrap_or(0); r.checks += it.next().and_then(|s| s.parse().ok()).unwrap_or(0); }
+        else if let Some(x) = l.strip_prefix("C13-CHILD-FAIL ") { let (what, input) = x.split_once(" | input: ").unwrap_or((x, "")); r.check(false, what, || input.to_string()); }
+        else if l == "C13-CHILD-DONE" { done = true; }
+    }
+    r.case();
+    r.check(done, "section and split return on every enumerated input (the families run in a child process under 6 GB of address space and a 900 s deadline)",
+        || format!("the child ended with {} before finishing; last block started: {}", status.clone().unwrap_or_else(|| "a kill at the deadline".to_string()), last));
+    true
+}
+
+fn run_all(r: &mut Report) {
     let q = |ax: Vector3, ang: f64| UnitQuaternion::from_axis_angle(&UnitVec3::new_normalize(ax), ang);
     let poses: Vec<(&str, Iso3)> = vec![
         ("identity", Iso3::identity()),
@@ -336,7 +407,8 @@ pub fn run() -> Option<Report> {
         for (pname, pose) in poses.iter() {
             let m = moved(base, pose);
             let name = format!("{} in pose {}", mname, pname);
-            check_transform(&mut r, &name, &m, &commute);
+            mark(r, &name);
+            check_transform(r, &name, &m, &commute);
             for n in normals.iter() {
                 let s: Vec<f64> = m.vertices().iter().map(|p| n.dot(&p.coords)).collect();
                 let lo = s.iter().cloned().fold(f64::INFINITY, f64::min);
@@ -345,11 +417,11 @@ pub fn run() -> Option<Report> {
                 for k in [1.0, 3.0, 5.0, 7.0, 9.0, 11.0, 13.0, 15.0] { offs.push(lo + (hi - lo) * k / 16.0); }
                 for d in offs {
                     if s.iter().any(|x| (x - d).abs() < 1e-5) { continue; }
-                    let k = check_section(&mut r, &name, &m, *convex, n, d, &commute);
+                    let k = check_section(r, &name, &m, *convex, n, d, &commute);
                     if k == 2 { two_loops += 1; }
                     if k == 1 && (d - lo - thin).abs() < 1e-12 { three_seg += 1; }
-                    check_split(&mut r, &name, &m, n, d);
-                    check_split_commutes(&mut r, &name, &m, n, d, &commute);
+                    check_split(r, &name, &m, n, d);
+                    check_split_commutes(r, &name, &m, n, d, &commute);
                 }
             }
         }
@@ -360,15 +432,16 @@ pub fn run() -> Option<Report> {
         for (pname, pose) in [("identity", Iso3::identity()), ("R(2,-1,2)1.1rad then +(-2,1.5,0.25)", general)] {
             let m = moved(base, &pose);
             let name = format!("{} in pose {}", name, pname);
+            mark(r, &name);
             for n in normals.iter().step_by(2) {
                 let s: Vec<f64> = m.vertices().iter().map(|p| n.dot(&p.coords)).collect();
                 let lo = s.iter().cloned().fold(f64::INFINITY, f64::min);
                 let hi = s.iter().cloned().fold(f64::NEG_INFINITY, f64::max);
                 for d in [lo - 0.5, lo + 0.25, lo + (hi - lo) * 5.0 / 16.0, lo + (hi - lo) * 9.0 / 16.0, hi - thin, hi + 0.5] {
                     if s.iter().any(|x| (x - d).abs() < 1e-5) { continue; }
-                    check_section(&mut r, &name, &m, *convex, n, d, &commute[4..]);
-                    check_split(&mut r, &name, &m, n, d);
-                    check_split_commutes(&mut r, &name, &m, n, d, &commute[1..2]);
+                    check_section(r, &name, &m, *convex, n, d, &commute[4..]);
+                    check_split(r, &name, &m, n, d);
+                    check_split_commutes(r, &name, &m, n, d, &commute[1..2]);
                 }
             }
         }
@@ -380,6 +453,7 @@ pub fn run() -> Option<Report> {
         for (pname, pose) in [("identity", Iso3::identity()), ("R(2,-1,2)1.1rad then +(-2,1.5,0.25)", general)] {
             let m = moved(&base, &pose);
             let name = format!("{} disjoint boxes in one mesh ({}) in pose {}", k, if via_options { "Mesh::new_with_options, is_solid = true" } else { "solid boxes appended" }, pname);
+            mark(r, &name);
             for n0 in [nv(0.0, 0.0, 1.0), nv(0.0, 1.0, 0.0), nv(0.0, -1.0, 0.2), nv(1.0, 0.0, 0.0), nv(1.0, 1.0, 1.0), nv(1.0, -3.0, 2.0), Vector3::new(1.0, 2.0, 2.0) / 3.0] {
                 let n = pose.rotation * n0; // the same cuts in either pose
                 let s: Vec<f64> = m.vertices().iter().map(|p| n.dot(&p.coords)).collect();
@@ -389,10 +463,10 @@ pub fn run() -> Option<Report> {
                     let d = lo + (hi - lo) * kf / 16.0 + 1.0 / 64.0;
                     if s.iter().any(|x| (x - d).abs() < 1e-5) { continue; }
                     let crossed = ranges.iter().filter(|(a, b)| s[*a..*b].iter().any(|x| *x < d) && s[*a..*b].iter().any(|x| *x > d)).count();
-                    let loops = check_section(&mut r, &name, &m, false, &n, d, &commute[4..]);
+                    let loops = check_section(r, &name, &m, false, &n, d, &commute[4..]);
                     r.check(loops == crossed, "section: as many closed loops as disjoint convex solids crossed by the plane", || format!("{} plane normal ({:?}, {:?}, {:?}) d {:?}: {} curves, {} solids crossed", name, n.x, n.y, n.z, d, loops, crossed));
                     if crossed >= 5 { many += 1; }
-                    check_split(&mut r, &name, &m, &n, d);
+                    check_split(r, &name, &m, &n, d);
                 }
             }
         }
@@ -405,11 +479,10 @@ pub fn run() -> Option<Report> {
     for n in normals.iter() {
         for d in [-3.0, -0.75, -0.3, 0.3, 0.45, 0.75, 1.1, 1.6, 4.0] {
             if strip.vertices().iter().any(|x| (n.dot(&x.coords) - d).abs() < 1e-5) { continue; }
-            check_split(&mut r, "open two-triangle strip", &strip, n, d);
+            check_split(r, "open two-triangle strip", &strip, n, d);
         }
     }
-    open_mesh_watchdog(&mut r);
-    Some(r)
+    wave5(r);
 }
 
 /// LAST clause (own name): Mesh::section on an OPEN mesh crossed by the plane.  parry 0.18's
@@ -437,4 +510,981 @@ fn open_mesh_watchdog(r: &mut Report) {
     if let Ok(c) = got {
         r.check(c.len() == 1 && c[0].0 == 3 && eq(c[0].1, 2.0), "section of an open flat square: one open curve through the two crossed faces, length 2", desc);
     }
+}
+
+// =====================================================================================================================
+// WAVE 5: parameter-space audit (notes/w5_audit_C13.md).  Families the fixed examples above avoid, every clause taken from
+// the statement, oracle independent of the code under test:
+//  * crossing segments by brute force from vertices and faces (one per face with vertices on both sides, joined where
+//    they share a cut mesh edge: union-find gives the connected chains), matched to the returned vertices through a
+//    sorted projection (n log n, so that sections with thousands of segments are affordable);
+//  * closed-form perimeters: a plane crossing only the side of an N-gon prism / tube cuts the N side planes in the N
+//    segments between the lifted outline points; convex solids: perimeter of the convex polygon through all crossing points;
+//  * the statement's relations: incidence, exactly once, closed, one loop, own sides, area sum, verdict, commutation.
+// Tolerances are absolute and follow the configuration: 1e-9 x (size of the mesh) + 4e-12 x (largest coordinate).
+// The curve tolerance `tol` (None = 1e-6) is in BOTH relations to the shortest crossing segment: below it every clause
+// is demanded; at or above it Curve3::from_points merges neighbouring crossing points (DESIGN: not claimed) and only
+// incidence, "every vertex is a crossing point" and closedness within tol are demanded.
+
+#[derive(Clone, Copy)]
+struct Sc { size: f64, mag: f64 }
+impl Sc {
+    fn of(v: &[Point3], d: f64) -> Sc {
+        let mut lo = Vector3::repeat(f64::INFINITY);
+        let mut hi = Vector3::repeat(f64::NEG_INFINITY);
+        for p in v.iter() { lo = lo.inf(&p.coords); hi = hi.sup(&p.coords); }
+        Sc { size: (hi - lo).norm(), mag: lo.abs().max().max(hi.abs().max()).max(d.abs()) }
+    }
+    fn join(&self, o: &Sc) -> Sc { Sc { size: self.size.max(o.size), mag: self.mag.max(o.mag) } }
+    /// absolute tolerance of a point / distance
+    fn pt(&self) -> f64 { 1e-9 * self.size + 4e-12 * self.mag }
+}
+const W5_DIR: [f64; 3] = [0.6, 0.64, 0.48];
+fn w5_proj(p: &Point3) -> f64 { W5_DIR[0] * p.x + W5_DIR[1] * p.y + W5_DIR[2] * p.z }
+/// points sorted by their projection on a fixed unit direction: nearest stored point within `tol` of a probe
+struct Finder { order: Vec<(f64, usize)> }
+impl Finder {
+    fn new(pts: &[Point3]) -> Finder {
+        let mut order: Vec<(f64, usize)> = pts.iter().enumerate().map(|(i, p)| (w5_proj(p), i)).collect();
+        order.sort_by(|a, b| a.0.partial_cmp(&b.0).unwrap().then(a.1.cmp(&b.1)));
+        Finder { order }
+    }
+    fn find(&self, pts: &[Point3], x: &Point3, tol: f64) -> Option<usize> {
+        let q = w5_proj(x);
+        let start = self.order.partition_point(|e| e.0 < q - tol);
+        let mut best: Option<(f64, usize)> = None;
+        for e in self.order[start..].iter() {
+            if e.0 > q + tol { break; }
+            let dd = (pts[e.1] - x).norm();
+            if dd <= tol && best.map(|b| dd < b.0).unwrap_or(true) { best = Some((dd, e.1)); }
+        }
+        best.map(|b| b.1)
+    }
+}
+
+struct Or2 {
+    /// one crossing point per cut mesh edge, and that edge
+    pts: Vec<Point3>,
+    edge: Vec<(u32, u32)>,
+    /// per crossed face: (face, crossing point, crossing point)
+    segs: Vec<(usize, usize, usize)>,
+    /// sorted pair of crossing points -> index into segs
+    segmap: HashMap<(usize, usize), Vec<usize>>,
+    /// connected chains of crossing segments; `manifold`: every crossing point ends exactly two segments
+    comps: usize,
+    manifold: bool,
+    smin: f64,
+    total: f64,
+    /// smallest distance of a mesh vertex from the plane
+    vmin: f64,
+    finder: Finder,
+}
+fn w5_oracle(v: &[Point3], f: &[[u32; 3]], n: &Vector3, d: f64) -> Or2 {
+    let sd: Vec<f64> = v.iter().map(|p| n.dot(&p.coords) - d).collect();
+    let vmin = sd.iter().fold(f64::INFINITY, |a, b| a.min(b.abs()));
+    let mut ids: HashMap<(u32, u32), usize> = HashMap::new();
+    let (mut pts, mut edge, mut segs): (Vec<Point3>, Vec<(u32, u32)>, Vec<(usize, usize, usize)>) = (vec![], vec![], vec![]);
+    for (k, t) in f.iter().enumerate() {
+        let mut cp: Vec<usize> = vec![];
+        for e in 0..3 {
+            let (a, b) = (t[e], t[(e + 1) % 3]);
+            if (sd[a as usize] < 0.0) != (sd[b as usize] < 0.0) {
+                let key = (a.min(b), a.max(b));
+                let id = match ids.get(&key) {
+                    Some(i) => *i,
+                    None => {
+                        let (p, q) = (key.0 as usize, key.1 as usize);
+                        pts.push(v[p] + (v[q] - v[p]) * (sd[p] / (sd[p] - sd[q])));
+                        edge.push(key);
+                        ids.insert(key, pts.len() - 1);
+                        pts.len() - 1
+                    }
+                };
+                cp.push(id);
+            }
+        }
+        if cp.len() == 2 { segs.push((k, cp[0], cp[1])); }
+    }
+    // union-find over the crossing points
+    let mut parent: Vec<usize> = (0..pts.len()).collect();
+    fn root(p: &mut Vec<usize>, mut i: usize) -> usize { while p[i] != i { p[i] = p[p[i]]; i = p[i]; } i }
+    let mut deg = vec![0usize; pts.len()];
+    let mut segmap: HashMap<(usize, usize), Vec<usize>> = HashMap::new();
+    let (mut smin, mut total) = (f64::INFINITY, 0.0);
+    for (i, (_, a, b)) in segs.iter().enumerate() {
+        let (ra, rb) = (root(&mut parent, *a), root(&mut parent, *b));
+        if ra != rb { parent[ra.max(rb)] = ra.min(rb); }
+        deg[*a] += 1; deg[*b] += 1;
+        segmap.entry((*a.min(b), *a.max(b))).or_default().push(i);
+        let l = (pts[*a] - pts[*b]).norm();
+        smin = smin.min(l); total += l;
+    }
+    let mut comps = 0;
+    for i in 0..pts.len() { if root(&mut parent, i) == i { comps += 1; } }
+    let manifold = deg.iter().all(|x| *x == 2);
+    let finder = Finder::new(&pts);
+    Or2 { pts, edge, segs, segmap, comps, manifold, smin, total, vmin, finder }
+}
+/// perimeter of the convex polygon through the points (all in the plane with normal n): convex hull by the monotone
+/// chain in a basis of the plane (nearly collinear points may be kept or dropped: the perimeter does not depend on it, so
+/// slivers of aspect 1e8 are fine, unlike an angular sort)
+fn convex_perimeter(pts: &[Point3], n: &Vector3) -> f64 {
+    if pts.len() < 3 { return 0.0; }
+    let c = pts.iter().fold(Vector3::zeros(), |s, p| s + p.coords) / pts.len() as f64;
+    let helper = if n.x.abs() <= n.y.abs() && n.x.abs() <= n.z.abs() { Vector3::x() } else if n.y.abs() <= n.z.abs() { Vector3::y() } else { Vector3::z() };
+    let u = n.cross(&helper).normalize();
+    let w = n.cross(&u);
+    let mut q: Vec<(f64, f64)> = pts.iter().map(|p| { let r = p.coords - c; (r.dot(&u), r.dot(&w)) }).collect();
+    q.sort_by(|a, b| a.0.partial_cmp(&b.0).unwrap().then(a.1.partial_cmp(&b.1).unwrap()));
+    let cross = |o: (f64, f64), a: (f64, f64), b: (f64, f64)| (a.0 - o.0) * (b.1 - o.1) - (a.1 - o.1) * (b.0 - o.0);
+    let mut hull: Vec<(f64, f64)> = vec![];
+    for pass in 0..2 {
+        let start = hull.len();
+        let it: Vec<(f64, f64)> = if pass == 0 { q.clone() } else { q.iter().rev().cloned().collect() };
+        for p in it {
+            while hull.len() >= start + 2 && cross(hull[hull.len() - 2], hull[hull.len() - 1], p) <= 0.0 { hull.pop(); }
+            hull.push(p);
+        }
+        hull.pop();
+    }
+    (0..hull.len()).map(|i| { let (a, b) = (hull[i], hull[(i + 1) % hull.len()]); ((a.0 - b.0).powi(2) + (a.1 - b.1).powi(2)).sqrt() }).sum()
+}
+
+/// the loops `b` are the loops `a` moved by `t` (any order of the loops, any starting vertex, either direction): every
+/// vertex of a loop of `a` lands on a vertex of ONE loop of `b` with the same vertex count and length, and every loop of
+/// `b` is the partner of exactly one loop of `a`
+fn same_loops(a: &[Curve3], b: &[Curve3], t: &Iso3, tol: f64) -> bool {
+    if a.len() != b.len() { return false; }
+    let mut all: Vec<Point3> = vec![];
+    let mut owner: Vec<usize> = vec![];
+    for (j, c) in b.iter().enumerate() { for p in c.points().iter() { all.push(*p); owner.push(j); } }
+    let fd = Finder::new(&all);
+    let mut taken = vec![false; b.len()];
+    for c in a.iter() {
+        let mut partner: Option<usize> = None;
+        for x in c.points().iter() {
+            match fd.find(&all, &(t * x), tol) {
+                None => return false,
+                Some(i) => { if partner.is_some() && partner != Some(owner[i]) { return false; } partner = Some(owner[i]); }
+            }
+        }
+        let j = match partner { Some(j) => j, None => return false };
+        if taken[j] || b[j].points().len() != c.points().len() || (b[j].length() - c.length()).abs() > tol * (1.0 + c.points().len() as f64) { return false; }
+        // and back: every vertex of the partner is the image of a vertex of this loop
+        let img: Vec<Point3> = c.points().iter().map(|x| t * x).collect();
+        let fi = Finder::new(&img);
+        if b[j].points().iter().any(|y| fi.find(&img, y, tol).is_none()) { return false; }
+        taken[j] = true;
+    }
+    true
+}
+
+struct Want<'a> {
+    /// a convex solid: one loop
+    convex: bool,
+    /// closed-form perimeter of the cross-section, when the caller has one
+    perimeter: Option<f64>,
+    commute: &'a [(&'a str, Iso3)],
+    /// also section with the same plane written with the opposite normal (-n, -d)
+    flip: bool,
+}
+struct Info { loops: usize, nseg: usize, full: bool, near: bool, skipped: bool }
+
+fn check_section2(r: &mut Report, name: &str, m: &Mesh, n: &Vector3, d: f64, tol: Option<f64>, w: &Want) -> Info {
+    let v = m.vertices().to_vec();
+    let f = m.faces().to_vec();
+    let sc = Sc::of(&v, d);
+    let at = sc.pt();
+    let desc = || format!("{} plane normal ({:?}, {:?}, {:?}) d {:?} tol {:?}", name, n.x, n.y, n.z, d, tol);
+    let o = w5_oracle(&v, &f, n, d);
+    let t = tol.unwrap_or(1.0e-6);
+    // relation of the curve tolerance to the shortest crossing segment (a tie within 0.1 % is not enumerated)
+    let full = o.segs.is_empty() || t <= 0.999 * o.smin;
+    if !full && t < 1.001 * o.smin { return Info { loops: 0, nseg: 0, full, near: false, skipped: true }; }
+    r.case();
+    let curves: Vec<Curve3> = match m.section(&plane(n, d), tol) { Ok(c) => c, Err(_) => { r.check(false, "section: returns Ok", desc); return Info { loops: 0, nseg: 0, full, near: false, skipped: false }; } };
+    if o.segs.is_empty() {
+        r.check(curves.is_empty(), "section: a plane that misses the mesh yields no curve", desc);
+    } else if full {
+        r.check(curves.len() == o.comps, "section: one curve per connected chain of crossing segments", desc);
+        if w.convex { r.check(curves.len() == 1, "section: a convex solid crossed by the plane yields exactly one loop", desc); }
+    } else {
+        r.check(curves.len() <= o.comps, "section: no more curves than connected chains of crossing segments", desc);
+    }
+    let mut used = vec![0usize; o.segs.len()];
+    let mut nseg = 0;
+    let brute_every = if f.len() <= 256 { 1 } else { 64 };
+    let mut count = 0usize;
+    for c in curves.iter() {
+        let p = c.points();
+        let mut ids: Vec<Option<usize>> = Vec::with_capacity(p.len());
+        for x in p.iter() {
+            r.check((n.dot(&x.coords) - d).abs() <= at, "section: every vertex lies on the plane", desc);
+            let id = o.finder.find(&o.pts, x, at);
+            r.check(id.is_some(), "section: every vertex is the crossing point of a mesh edge with the plane", desc);
+            // on the surface: on the cut mesh edge it was matched to, and (small meshes: every vertex; large ones: every 64th) on some face
+            if let Some(i) = id {
+                let (a, b) = o.edge[i];
+                r.check((x - seg_closest(&v[a as usize], &v[b as usize], x)).norm() <= at, "section: every vertex lies on the mesh surface", desc);
+            }
+            if count % brute_every == 0 {
+                let on = f.iter().any(|t| (x - tri_closest(&v[t[0] as usize], &v[t[1] as usize], &v[t[2] as usize], x)).norm() <= at);
+                r.check(on, "section: every vertex lies on the mesh surface", desc);
+            }
+            count += 1;
+            ids.push(id);
+        }
+        if full {
+            for i in 0..p.len() - 1 {
+                nseg += 1;
+                let hit: &[usize] = match (ids[i], ids[i + 1]) { (Some(a), Some(b)) => o.segmap.get(&(a.min(b), a.max(b))).map(|x| x.as_slice()).unwrap_or(&[]), _ => &[] };
+                r.check(hit.len() == 1, "section: consecutive vertices are joined across one face (they are the two crossing points of one crossed face)", desc);
+                for k in hit { used[*k] += 1; }
+            }
+            if o.manifold {
+                r.check((p[0] - p[p.len() - 1]).norm() <= at && p.len() >= 4, "section: every section curve of a watertight mesh is closed", desc);
+            }
+        } else if o.manifold {
+            r.check((p[0] - p[p.len() - 1]).norm() <= t + at, "section: every section curve of a watertight mesh is closed (within the curve tolerance when crossing points closer than it were merged)", desc);
+        }
+    }
+    if full {
+        r.check(used.iter().all(|u| *u == 1) && nseg == o.segs.len(), "section: each plane-face crossing segment is used exactly once", desc);
+        let ltol = 1e-9 * (sc.size + o.total) + 4e-12 * sc.mag * (1.0 + o.segs.len() as f64);
+        let total: f64 = curves.iter().map(|c| c.length()).sum();
+        r.check((total - o.total).abs() <= ltol, "section: the total length of the curves is the total length of the crossing segments", desc);
+        if w.convex && curves.len() == 1 {
+            let per = convex_perimeter(&o.pts, n);
+            r.check((curves[0].length() - per).abs() <= ltol, "section: the loop of a convex solid has the analytic perimeter of the cross-section", desc);
+        }
+        if let (Some(per), 1) = (w.perimeter, curves.len()) {
+            r.check((curves[0].length() - per).abs() <= ltol, "section: the loop has the closed-form perimeter of the cross-section (N-gon prism / tube: the N segments between the lifted outline points)",
+                || format!("{}: length {:?}, closed form {:?}", desc(), curves[0].length(), per));
+        }
+    }
+    if w.flip && full {
+        r.case();
+        let nn = -*n;
+        match m.section(&plane(&nn, -d), tol) {
+            Ok(c2) => r.check(same_loops(&curves, &c2, &Iso3::identity(), at), "section: the same plane written with the opposite normal (-n, -d) yields the same loops", desc),
+            Err(_) => r.check(false, "section: returns Ok", desc),
+        }
+    }
+    if full {
+        for (tn, tf) in w.commute.iter() {
+            let dc = || format!("{} moved by {}", desc(), tn);
+            r.case();
+            let (n2, d2) = moved_plane(n, d, tf);
+            let tp = plane(n, d).transform_by(tf);
+            let mm = moved(m, tf);
+            let s2 = sc.join(&Sc::of(mm.vertices(), d2));
+            r.check((tp.normal.into_inner() - n2).norm() <= EPS && (tp.d - d2).abs() <= s2.pt(),
+                "Plane3::transform_by yields the image of the plane under the rigid motion (normal rotated, offset = d + rotated normal . translation)",
+                || format!("{}: transform_by gives normal ({:?}, {:?}, {:?}) d {:?}, the image plane has normal ({:?}, {:?}, {:?}) d {:?}", dc(), tp.normal.x, tp.normal.y, tp.normal.z, tp.d, n2.x, n2.y, n2.z, d2));
+            match mm.section(&tp, tol) {
+                Ok(c2) => r.check(same_loops(&curves, &c2, tf, s2.pt()), "section: commutes with rigid motion of mesh and plane together (same loops, vertex for vertex)", dc),
+                Err(_) => r.check(false, "section: returns Ok", dc),
+            }
+        }
+    }
+    Info { loops: curves.len(), nseg, full, near: o.vmin < t, skipped: false }
+}
+
+/// split with tolerances that follow the configuration; `flip`: the same plane with the opposite normal swaps the halves
+fn check_split2(r: &mut Report, name: &str, m: &Mesh, n: &Vector3, d: f64, flip: bool, commute: &[(&str, Iso3)]) {
+    let sc = Sc::of(m.vertices(), d);
+    let am = area(m.vertices(), m.faces());
+    let atol = 1e-9 * am + sc.pt() * sc.size;
+    check_split_t(r, name, m, n, d, sc.pt(), atol);
+    let s0 = split_summary(m, &plane(n, d));
+    if flip {
+        let nn = -*n;
+        let s1 = split_summary(m, &plane(&nn, -d));
+        r.check(s0.0 == -s1.0 && (s0.1 - s1.2).abs() <= atol && (s0.2 - s1.1).abs() <= atol, "split: the same plane written with the opposite normal (-n, -d) swaps the two sides (verdict and areas)",
+            || format!("{} plane normal ({:?}, {:?}, {:?}) d {:?}: (verdict, negative area, positive area) {:?}, with the opposite normal {:?}", name, n.x, n.y, n.z, d, s0, s1));
+    }
+    for (tn, t) in commute.iter() {
+        let s1 = split_summary(&moved(m, t), &plane(n, d).transform_by(t));
+        let a2 = atol + 4e-12 * t.translation.vector.norm() * sc.size;
+        r.check(s0.0 == s1.0 && (s0.1 - s1.1).abs() <= a2 && (s0.2 - s1.2).abs() <= a2, "split: commutes with rigid motion of mesh and plane together (same verdict, same areas on either side)",
+            || format!("{} plane normal ({:?}, {:?}, {:?}) d {:?} moved by {}: (verdict, negative area, positive area) {:?} before, {:?} after", name, n.x, n.y, n.z, d, tn, s0, s1));
+    }
+}
+
+// ---------------------------------------------------------------------------------------------------- mesh builders
+fn p3(x: f64, y: f64, z: f64) -> Point3 { Point3::new(x, y, z) }
+/// watertight convex N-gon prism ("cylinder" with caps): ring k at angle 2 pi k / N, bottom ring ids 0..N, top ring N..2N,
+/// caps fanned from ring vertex 0; 4N - 4 faces
+fn ngon_prism(nsides: usize, radius: f64, height: f64) -> Mesh {
+    let n = nsides as u32;
+    let mut v = vec![];
+    for z in [0.0, height] { for k in 0..nsides { let a = k as f64 * 2.0 * PI / nsides as f64; v.push(p3(radius * a.cos(), radius * a.sin(), z)); } }
+    let mut f: Vec<[u32; 3]> = vec![];
+    for k in 0..n { let j = (k + 1) % n; f.push([k, j, j + n]); f.push([k, j + n, k + n]); }
+    for k in 1..n - 1 { f.push([0, k + 1, k]); f.push([n, n + k, n + k + 1]); }
+    Mesh::new(v, f, true)
+}
+/// closed-form perimeter of the section of an N-gon prism / tube (axis z in the local frame `pose`, outline = the solid's
+/// own bottom rim, in angular order about the axis) by the plane (n, d) when the plane crosses the side only: every
+/// lifted outline point strictly between the rims.  The N side planes are cut in the N segments between the lifted points.
+fn ngon_section_perimeter(local: &[Point3], height: f64, pose: &Iso3, n: &Vector3, d: f64) -> Option<f64> {
+    let nl = pose.rotation.inverse() * n;
+    let dl = d - n.dot(&pose.translation.vector);
+    if nl.z.abs() < 1e-3 { return None; }
+    let mut rim: Vec<(f64, f64, f64)> = local.iter().filter(|p| p.z < 0.5 * height).map(|p| (p.y.atan2(p.x), p.x, p.y)).collect();
+    rim.sort_by(|a, b| a.0.partial_cmp(&b.0).unwrap());
+    let mut lifted: Vec<Point3> = vec![];
+    for (_, x, y) in rim.iter() {
+        let z = (dl - nl.x * x - nl.y * y) / nl.z;
+        if z <= 1e-4 * height || z >= height * (1.0 - 1e-4) { return None; }
+        lifted.push(p3(*x, *y, z));
+    }
+    let k = lifted.len();
+    Some((0..k).map(|i| (lifted[(i + 1) % k] - lifted[i]).norm()).sum())
+}
+/// UV sphere: poles + (nlat - 1) rings of nlon vertices; convex (vertices on the sphere, planar trapezoids)
+fn uv_sphere(nlat: usize, nlon: usize, radius: f64) -> Mesh {
+    let mut v = vec![p3(0.0, 0.0, radius)];
+    for i in 1..nlat { let th = PI * i as f64 / nlat as f64; for j in 0..nlon { let ph = 2.0 * PI * j as f64 / nlon as f64; v.push(p3(radius * th.sin() * ph.cos(), radius * th.sin() * ph.sin(), radius * th.cos())); } }
+    v.push(p3(0.0, 0.0, -radius));
+    let south = (v.len() - 1) as u32;
+    let ring = |i: usize, j: usize| (1 + (i - 1) * nlon + j % nlon) as u32;
+    let mut f: Vec<[u32; 3]> = vec![];
+    for j in 0..nlon { f.push([0, ring(1, j), ring(1, j + 1)]); }
+    for i in 1..nlat - 1 { for j in 0..nlon { f.push([ring(i, j), ring(i + 1, j), ring(i + 1, j + 1)]); f.push([ring(i, j), ring(i + 1, j + 1), ring(i, j + 1)]); } }
+    for j in 0..nlon { f.push([south, ring(nlat - 1, j + 1), ring(nlat - 1, j)]); }
+    Mesh::new(v, f, true)
+}
+/// torus about the z axis (major radius rr, tube radius r), nu x nv quads (non-convex, watertight)
+fn torus(nu: usize, nv: usize, rr: f64, r: f64) -> Mesh {
+    let mut v = vec![];
+    for i in 0..nu { let a = 2.0 * PI * i as f64 / nu as f64; for j in 0..nv { let b = 2.0 * PI * j as f64 / nv as f64; v.push(p3((rr + r * b.cos()) * a.cos(), (rr + r * b.cos()) * a.sin(), r * b.sin())); } }
+    let id = |i: usize, j: usize| ((i % nu) * nv + j % nv) as u32;
+    let mut f: Vec<[u32; 3]> = vec![];
+    for i in 0..nu { for j in 0..nv { f.push([id(i, j), id(i + 1, j), id(i + 1, j + 1)]); f.push([id(i, j), id(i + 1, j + 1), id(i, j + 1)]); } }
+    Mesh::new(v, f, true)
+}
+/// watertight solid under a bumpy height field on a g x g grid of unit cells: heights 1 + (multiples of 1/16 from a fixed
+/// linear congruential sequence), vertical skirt down to z = 0 and a flat bottom; a plane z = const cuts many contours
+fn height_solid(g: usize) -> Mesh {
+    let mut state: u64 = 0x9E3779B97F4A7C15;
+    let mut v = vec![];
+    for i in 0..g { for j in 0..g {
+        state = state.wrapping_mul(6364136223846793005).wrapping_add(1442695040888963407);
+        let bump = ((state >> 33) % 32) as f64 / 16.0;
+        v.push(p3(i as f64, j as f64, 1.0 + bump));
+    } }
+    for i in 0..g { for j in 0..g { v.push(p3(i as f64, j as f64, 0.0)); } }
+    let top = |i: usize, j: usize| (i * g + j) as u32;
+    let bot = |i: usize, j: usize| (g * g + i * g + j) as u32;
+    let mut f: Vec<[u32; 3]> = vec![];
+    for i in 0..g - 1 { for j in 0..g - 1 {
+        f.push([top(i, j), top(i + 1, j), top(i + 1, j + 1)]); f.push([top(i, j), top(i + 1, j + 1), top(i, j + 1)]);
+        f.push([bot(i, j), bot(i + 1, j + 1), bot(i + 1, j)]); f.push([bot(i, j), bot(i, j + 1), bot(i + 1, j + 1)]);
+    } }
+    // skirt: the four border lines, each a strip between the top and the bottom border
+    let mut border: Vec<(usize, usize)> = vec![];
+    for i in 0..g - 1 { border.push((i, 0)); }
+    for j in 0..g - 1 { border.push((g - 1, j)); }
+    for i in (1..g).rev() { border.push((i, g - 1)); }
+    for j in (1..g).rev() { border.push((0, j)); }
+    for k in 0..border.len() {
+        let (a, b) = (border[k], border[(k + 1) % border.len()]);
+        f.push([bot(a.0, a.1), bot(b.0, b.1), top(b.0, b.1)]); f.push([bot(a.0, a.1), top(b.0, b.1), top(a.0, a.1)]);
+    }
+    Mesh::new(v, f, true)
+}
+/// prism over a set of unit cells of the integer grid (cells given by their lower-left corner), extruded from z = 0 to
+/// z = h: caps of two triangles per cell on shared grid vertices, walls on the cell edges used by one cell only.
+/// Watertight when no two cells touch at a corner only.
+fn cells_prism(cells: &[(i32, i32)], h: f64) -> Mesh {
+    let mut vid: Vec<(i32, i32)> = vec![];
+    let mut idof = |x: i32, y: i32, vid: &mut Vec<(i32, i32)>| -> u32 { match vid.iter().position(|q| *q == (x, y)) { Some(i) => i as u32, None => { vid.push((x, y)); (vid.len() - 1) as u32 } } };
+    let mut caps: Vec<[u32; 3]> = vec![];
+    let mut walls: Vec<(u32, u32)> = vec![];
+    for (x, y) in cells.iter() {
+        let (a, b, c, d) = (idof(*x, *y, &mut vid), idof(*x + 1, *y, &mut vid), idof(*x + 1, *y + 1, &mut vid), idof(*x, *y + 1, &mut vid));
+        caps.push([a, b, c]); caps.push([a, c, d]);
+        for (u, w, nb) in [(a, b, (*x, *y - 1)), (b, c, (*x + 1, *y)), (c, d, (*x, *y + 1)), (d, a, (*x - 1, *y))] { if !cells.contains(&nb) { walls.push((u, w)); } }
+    }
+    let nv = vid.len() as u32;
+    let mut v: Vec<Point3> = vid.iter().map(|(x, y)| p3(*x as f64, *y as f64, 0.0)).collect();
+    v.extend(vid.iter().map(|(x, y)| p3(*x as f64, *y as f64, h)));
+    let mut f: Vec<[u32; 3]> = vec![];
+    for t in caps.iter() { f.push([t[0], t[2], t[1]]); f.push([t[0] + nv, t[1] + nv, t[2] + nv]); }
+    for (u, w) in walls.iter() { f.push([*u, *w, *w + nv]); f.push([*u, *w + nv, *u + nv]); }
+    Mesh::new(v, f, true)
+}
+fn with_vertices(m: &Mesh, g: impl Fn(&Point3) -> Point3) -> Mesh { Mesh::new(m.vertices().iter().map(|p| g(p)).collect(), m.faces().to_vec(), m.is_solid()) }
+/// the same surface with another, equally legal numbering
+fn relabelled(m: &Mesh, kind: usize) -> (&'static str, Mesh) {
+    let (v, f) = (m.vertices().to_vec(), m.faces().to_vec());
+    let nv = v.len() as u32;
+    match kind {
+        0 => ("vertex ids reversed", Mesh::new(v.iter().rev().cloned().collect(), f.iter().map(|t| [nv - 1 - t[0], nv - 1 - t[1], nv - 1 - t[2]]).collect(), true)),
+        1 => ("faces listed in reverse order", Mesh::new(v, f.iter().rev().cloned().collect(), true)),
+        2 => ("faces listed odd ones first, each face starting at its second vertex", Mesh::new(v, f.iter().skip(1).step_by(2).chain(f.iter().step_by(2)).map(|t| [t[1], t[2], t[0]]).collect(), true)),
+        3 => ("every face with the opposite orientation", Mesh::new(v, f.iter().map(|t| [t[0], t[2], t[1]]).collect(), true)),
+        _ => {
+            // vertices permuted by i -> 5 i + 3 mod nv when 5 does not divide nv, else i -> 3 i + 1 (nv not a multiple of 3 and 5 at once here)
+            let mul = if nv % 5 != 0 { 5 } else if nv % 3 != 0 { 3 } else { 7 };
+            let perm = |i: u32| (mul * i + 3) % nv;
+            let mut nvx = v.clone();
+            for i in 0..nv { nvx[perm(i) as usize] = v[i as usize]; }
+            ("vertices permuted (i -> k i + 3 mod count), faces rotated by a third of the list", {
+                let k = f.len() / 3;
+                Mesh::new(nvx, f.iter().skip(k).chain(f.iter().take(k)).map(|t| [perm(t[2]), perm(t[0]), perm(t[1])]).collect(), true)
+            })
+        }
+    }
+}
+
+fn extent(m: &Mesh, n: &Vector3) -> (Vec<f64>, f64, f64) {
+    let s: Vec<f64> = m.vertices().iter().map(|p| n.dot(&p.coords)).collect();
+    let lo = s.iter().cloned().fold(f64::INFINITY, f64::min);
+    let hi = s.iter().cloned().fold(f64::NEG_INFINITY, f64::max);
+    (s, lo, hi)
+}
+const MARGIN: f64 = 1e-5;
+fn too_close(s: &[f64], d: f64) -> bool { s.iter().any(|x| (x - d).abs() < MARGIN) }
+
+
+/// ROBUSTNESS probes (the statement: planes through vertices / edges are "separately probed for robustness"): the plane
+/// passes exactly through mesh vertices (through every triple of vertices of the solid: face planes, diagonal planes,
+/// corner planes), or its offset is bit-equal to / one ulp either side of the smallest or largest vertex distance.
+/// Demanded: section and split return (no panic, no error); when the plane is exactly through vertices, the returned
+/// vertices are still on the plane and on the surface, the halves on their own sides, a one-side verdict correct for the
+/// closed half-space.  NOT demanded here: closedness, exactly-once, area sums (a face in the plane belongs to both halves).
+fn probe_through(r: &mut Report, name: &str, m: &Mesh, n: &Vector3, d: f64, exact: bool) -> usize {
+    let v = m.vertices().to_vec();
+    let f = m.faces().to_vec();
+    let sc = Sc::of(&v, d);
+    let at = sc.pt();
+    let desc = || format!("{} plane normal ({:?}, {:?}, {:?}) d {:?}", name, n.x, n.y, n.z, d);
+    if !parry_walk_returns(&v, &f, n, d) { return usize::MAX; }
+    r.case();
+    let curves = match m.section(&plane(n, d), None) { Ok(c) => c, Err(_) => { r.check(false, "section through mesh vertices / edges (robustness probe): returns Ok", desc); return 0; } };
+    r.check(true, "section through mesh vertices / edges (robustness probe): returns Ok", desc);
+    if exact {
+        for c in curves.iter() { for x in c.points().iter() {
+            r.check((n.dot(&x.coords) - d).abs() <= at, "section: every vertex lies on the plane", desc);
+            let on = f.iter().any(|t| (x - tri_closest(&v[t[0] as usize], &v[t[1] as usize], &v[t[2] as usize], x)).norm() <= at);
+            r.check(on, "section: every vertex lies on the mesh surface", desc);
+        } }
+        let sd: Vec<f64> = v.iter().map(|p| n.dot(&p.coords) - d).collect();
+        match m.split(&plane(n, d)) {
+            SplitResult::Positive => r.check(sd.iter().all(|s| *s >= -at), "split: reports Positive only when the mesh is wholly on the positive side of the plane", desc),
+            SplitResult::Negative => r.check(sd.iter().all(|s| *s <= at), "split: reports Negative only when the mesh is wholly on the negative side of the plane", desc),
+            SplitResult::Pair(a, b) => {
+                r.check(sd.iter().any(|s| *s < -at) && sd.iter().any(|s| *s > at), "split: yields two meshes only when the plane crosses the mesh", desc);
+                r.check(a.vertices().iter().all(|p| n.dot(&p.coords) - d <= at), "split: the first mesh lies on the negative side of the plane", desc);
+                r.check(b.vertices().iter().all(|p| n.dot(&p.coords) - d >= -at), "split: the second mesh lies on the positive side of the plane", desc);
+            }
+        }
+    } else {
+        let _ = m.split(&plane(n, d));
+    }
+    curves.len()
+}
+/// GUARD (not an oracle): a re-enactment of the combinatorial part of parry 0.18's intersection_with_local_plane
+/// (vertex colours with epsilon 1e-6, the per-face feature pairs, the adjacency lists and the walk "until the loop
+/// closes") with a step budget.  `false` = the walk meets a dead end or a cycle that misses its start and parry would
+/// never return (known finding '[parry 0.18 intersection_with_local_plane, open chain]'): such a probe is not run.
+fn parry_walk_returns(v: &[Point3], f: &[[u32; 3]], n: &Vector3, d: f64) -> bool {
+    let eps = 1.0e-6;
+    let colors: Vec<u8> = v.iter().map(|p| { let s = p.coords.dot(n) - d; if s < -eps { 1 } else if s > eps { 2 } else { 0 } }).collect();
+    if !colors.contains(&1) || !colors.contains(&2) { return true; }
+    #[derive(Clone, Copy, PartialEq)]
+    enum Ft { Unknown, Vertex(usize), Edge(usize) }
+    let mut adj: Vec<Vec<usize>> = vec![];
+    let mut count = 0usize;
+    let mut inter: HashMap<(u32, u32), usize> = HashMap::new();
+    let mut exist: HashMap<u32, usize> = HashMap::new();
+    fn add(adj: &mut Vec<Vec<usize>>, a: usize, b: usize) { if a < adj.len() { adj[a].push(b); } else if a == adj.len() { adj.push(vec![b]); } }
+    fn sym(adj: &mut Vec<Vec<usize>>, a: usize, b: usize) { if a < b { add(adj, a, b); add(adj, b, a); } else { add(adj, b, a); add(adj, a, b); } }
+    for idx in f.iter() {
+        let (mut f0, mut f1) = (Ft::Unknown, Ft::Unknown);
+        for ia in 0..3usize {
+            let ib = (ia + 1) % 3;
+            let fid = match (colors[idx[ia] as usize], colors[idx[ib] as usize]) { (1, 2) | (2, 1) => Ft::Edge(ia), (0, _) => Ft::Vertex(ia), _ => continue };
+            if f0 == Ft::Unknown { f0 = fid; } else { f1 = fid; }
+        }
+        let mut get_inter = |a: u32, b: u32, count: &mut usize| -> usize { *inter.entry((a.min(b), a.max(b))).or_insert_with(|| { *count += 1; *count - 1 }) };
+        match (f0, f1) {
+            (_, Ft::Unknown) => {}
+            (Ft::Vertex(i1), Ft::Vertex(i2)) => {
+                let o1 = *exist.entry(idx[i1]).or_insert_with(|| { count += 1; count - 1 });
+                let o2 = *exist.entry(idx[i2]).or_insert_with(|| { count += 1; count - 1 });
+                sym(&mut adj, o1, o2);
+            }
+            (Ft::Vertex(iv), Ft::Edge(ie)) | (Ft::Edge(ie), Ft::Vertex(iv)) => {
+                let (ia, ib, ic) = (ie, (ie + 1) % 3, (ie + 2) % 3);
+                if iv != ic { return false; }
+                let x = get_inter(idx[ia], idx[ib], &mut count);
+                let oc = *exist.entry(idx[ic]).or_insert_with(|| { count += 1; count - 1 });
+                sym(&mut adj, oc, x);
+            }
+            (Ft::Edge(mut e1), Ft::Edge(mut e2)) => {
+                if e2 != (e1 + 1) % 3 { std::mem::swap(&mut e1, &mut e2); }
+                let _ = e1;
+                let (ia, ib, ic) = (e2, (e2 + 1) % 3, (e2 + 2) % 3);
+                let x1 = get_inter(idx[ic], idx[ia], &mut count);
+                let x2 = get_inter(idx[ia], idx[ib], &mut count);
+                sym(&mut adj, x1, x2);
+            }
+            _ => return false,
+        }
+    }
+    let budget = 4 * adj.iter().map(|a| a.len()).sum::<usize>() + 16;
+    let mut steps = 0usize;
+    let mut seen = vec![false; adj.len()];
+    for idx in 0..adj.len() {
+        if seen[idx] { continue; }
+        let first = idx;
+        let mut prev = first;
+        let mut next = adj[idx].first().cloned();
+        'walk: while let Some(current) = next {
+            steps += 1;
+            if steps > budget || current >= adj.len() { return false; }
+            seen[current] = true;
+            for nb in adj[current].iter() {
+                if *nb != prev && *nb != first { prev = current; next = Some(*nb); continue 'walk; }
+                else if *nb != prev && *nb == first { next = None; continue 'walk; }
+            }
+        }
+    }
+    true
+}
+
+fn next_up(x: f64) -> f64 { if x == 0.0 { f64::from_bits(1) } else if x > 0.0 { f64::from_bits(x.to_bits() + 1) } else { f64::from_bits(x.to_bits() - 1) } }
+fn next_down(x: f64) -> f64 { -next_up(-x) }
+
+/// The one probe of the family above that the guard keeps away from the main loop, under its own clause name (same
+/// dependency defect as the open-chain one: parry's walk "until the loop closes" never leaves a dead end).  The mesh is
+/// WATERTIGHT: the L-prism; the plane 2x + 3z = 8 crosses it and contains the edge (1,1,2)-(1,3,2), where it only touches
+/// the solid, so the crossing chain has a dangling segment.  Run in a CHILD process (this binary again, C13_CHILD set)
+/// under `ulimit -v` 2 GB and a 5 s deadline, so that the runaway allocation cannot hurt the parent.
+const TOUCHING: &str = "L-shaped prism (0,0),(4,0),(4,1),(1,1),(1,3),(0,3) x 2 (watertight), plane 2x + 3z = 8 (normal (2,0,3)/sqrt 13, d 8/sqrt 13): crosses the solid and contains the edge (1,1,2)-(1,3,2), which it only touches";
+fn touching_edge_child() -> ! {
+    let m = base_meshes().remove(3).1;
+    let n = Vector3::new(2.0, 0.0, 3.0).normalize();
+    let c = m.section(&plane(&n, 8.0 / 13f64.sqrt()), None);
+    println!("C13-CHILD-RETURNED {}", c.map(|x| x.len() as i64).unwrap_or(-1));
+    std::process::exit(0);
+}
+fn touching_edge_watchdog(r: &mut Report) {
+    use std::process::{Command, Stdio};
+    use std::io::Read;
+    let why = "coverage: the child process for the plane-touching-an-edge probe can be started (current_exe, sh)";
+    let exe = match std::env::current_exe() { Ok(e) => e, Err(_) => { r.check(false, why, || "current_exe failed".to_string()); return; } };
+    let child = Command::new("sh").arg("-c").arg("ulimit -v 2000000; exec \"$0\" bounded C13").arg(&exe).env("C13_CHILD", "touching-edge").stdin(Stdio::null()).stdout(Stdio::piped()).stderr(Stdio::null()).spawn();
+    let mut child = match child { Ok(c) => c, Err(_) => { r.check(false, why, || "sh could not be spawned".to_string()); return; } };
+    let t0 = std::time::Instant::now();
+    let mut done = false;
+    while t0.elapsed().as_millis() < 5000 {
+        match child.try_wait() { Ok(Some(_)) => { done = true; break; } Ok(None) => std::thread::sleep(std::time::Duration::from_millis(10)), Err(_) => break }
+    }
+    if !done { let _ = child.kill(); let _ = child.wait(); }
+    let mut out = String::new();
+    if let Some(mut o) = child.stdout.take() { let _ = o.read_to_string(&mut out); }
+    r.case();
+    r.check(out.contains("C13-CHILD-RETURNED"), "[parry 0.18 intersection_with_local_plane, open chain] section of a WATERTIGHT mesh by a plane that contains a mesh edge it only touches (dangling crossing segment) returns (child process, 2 GB / 5 s)", || TOUCHING.to_string());
+}
+
+fn wave5(r: &mut Report) {
+    let dbg = std::env::var("C13_DEBUG").is_ok();
+    let q = |ax: Vector3, ang: f64| UnitQuaternion::from_axis_angle(&UnitVec3::new_normalize(ax), ang);
+    let nv = |x: f64, y: f64, z: f64| Vector3::new(x, y, z).normalize();
+    let general = Iso3::from_parts(Translation3::new(-2.0, 1.5, 0.25), q(Vector3::new(2.0, -1.0, 2.0), 1.1));
+    let commute3: Vec<(&str, Iso3)> = vec![
+        ("Ry90 then +(1,-2,3)", Iso3::from_parts(Translation3::new(1.0, -2.0, 3.0), q(Vector3::y(), PI / 2.0))),
+        ("R(1,2,2)0.7rad then +(0.5,-1.25,2)", Iso3::from_parts(Translation3::new(0.5, -1.25, 2.0), q(Vector3::new(1.0, 2.0, 2.0), 0.7))),
+        ("tiny: -1e-5 rad about (1,-1,0) then +(1000,-500,250)", Iso3::from_parts(Translation3::new(1000.0, -500.0, 250.0), q(Vector3::new(1.0, -1.0, 0.0), -1.0e-5))),
+    ];
+    let normals17 = vec![
+        nv(1.0, 0.0, 0.0), nv(-1.0, 0.0, 0.0), nv(0.0, 1.0, 0.0), nv(0.0, -1.0, 0.0), nv(0.0, 0.0, 1.0), nv(0.0, 0.0, -1.0),
+        nv(1.0, 1.0, 1.0), nv(1.0, -1.0, 1.0), nv(-1.0, 1.0, 1.0), nv(1.0, 1.0, -1.0),
+        Vector3::new(1.0, 2.0, 2.0) / 3.0, Vector3::new(2.0, -3.0, 6.0) / 7.0,
+        nv(1.0, -1.0, 0.2), nv(-3.0, 1.0, -2.0), nv(0.0, 1.0, 1.0), nv(1.0, 0.0, -2.0), nv(1.0, 1.0, 0.0),
+    ];
+    let normals7 = vec![nv(0.0, 0.0, 1.0), nv(0.0, 0.0, -1.0), nv(1.0, 0.0, 0.0), nv(1.0, 1.0, 1.0), Vector3::new(1.0, 2.0, 2.0) / 3.0, Vector3::new(2.0, -3.0, 6.0) / 7.0, nv(1.0, -1.0, 0.2)];
+    let none: Vec<(&str, Iso3)> = vec![];
+
+    // ---- (1) MAGNITUDES a: scale and distance from the origin.  The four base solids scaled by 2^-10 (extent 2e-3 .. 5e-3) and
+    // 2^10 (extent 2e3 .. 5e3), and unscaled but moved to 2e4 and 1e6 from the origin; offsets: just outside either end
+    // (2^-10 of the extent, in both orientations of the normal through the (-n, -d) check), sixteenths, thin cuts scaled
+    // with the mesh AND absolute ones (2^-12, and 2^-16 = just above the 1e-5 margin), each also with the opposite normal
+    let (mut small_loops, mut far_cases, mut outside) = (0usize, 0usize, 0usize);
+    let configs: Vec<(&str, f64, Iso3)> = vec![
+        ("scaled by 2^-10", 1.0 / 1024.0, Iso3::identity()),
+        ("scaled by 2^-10, R(2,-1,2)1.1rad then +(-2,1.5,0.25)", 1.0 / 1024.0, general),
+        ("scaled by 2^10", 1024.0, Iso3::identity()),
+        ("scaled by 2^10, R(2,-1,2)1.1rad then +(-2,1.5,0.25)", 1024.0, general),
+        ("moved by +(16384,-8192,4096)", 1.0, Iso3::translation(16384.0, -8192.0, 4096.0)),
+        ("R(2,-1,2)1.1rad then +(1048576,0,-524288)", 1.0, Iso3::from_parts(Translation3::new(1048576.0, 0.0, -524288.0), q(Vector3::new(2.0, -1.0, 2.0), 1.1))),
+    ];
+    for (mname, base, convex) in base_meshes().iter() {
+        for (cname, s, pose) in configs.iter() {
+            let m = moved(&with_vertices(base, |p| Point3::from(p.coords * *s)), pose);
+            let name = format!("{} {}", mname, cname);
+            mark(r, &name);
+            for n in normals17.iter() {
+                let (sv, lo, hi) = extent(&m, n);
+                let ext = hi - lo;
+                let mut offs = vec![lo - ext / 1024.0, hi + ext / 1024.0, lo - 0.5 * s, hi + 0.5 * s, lo + s / 4096.0, hi - s / 4096.0, lo + 1.0 / 4096.0, hi - 1.0 / 4096.0, lo + 1.0 / 65536.0, hi - 1.0 / 65536.0];
+                for k in [1.0, 5.0, 9.0, 15.0] { offs.push(lo + ext * k / 16.0); }
+                for d in offs {
+                    if too_close(&sv, d) { continue; }
+                    let w = Want { convex: *convex, perimeter: None, commute: &commute3[1..], flip: true };
+                    let i = check_section2(r, &name, &m, n, d, None, &w);
+                    if i.full && i.loops >= 1 && (d - lo - 1.0 / 65536.0).abs() < 1e-12 * (1.0 + d.abs()) { small_loops += 1; }
+                    if *s == 1.0 && i.loops >= 1 { far_cases += 1; }
+                    if d < lo || d > hi { outside += 1; }
+                    check_split2(r, &name, &m, n, d, true, &commute3[1..2]);
+                }
+            }
+        }
+    }
+    r.check(small_loops >= 300 && far_cases >= 1000 && outside >= 1000, "coverage: the input space contains loops cut 2^-16 inside a corner, sections 2e4 and 1e6 from the origin and planes just outside the mesh", || format!("{} loops 2^-16 inside, {} far sections, {} planes outside", small_loops, far_cases, outside));
+    if dbg { eprintln!("a: small_loops {} far {} outside {}", small_loops, far_cases, outside); }
+
+    // ---- (1) MAGNITUDES b: many faces.  Capped N-gon prisms (convex, watertight; 4N - 4 faces), engeom's own create_cylinder
+    // (open tube, 2N faces; planes between the rims only), UV spheres, tori, height-field solids
+    let mut big_seg = 0usize;
+    let mut closed_form = 0usize;
+    let mut sides: Vec<usize> = vec![5, 33, 65, 257, 1100, 2100];
+    if thorough() { sides.push(4100); }
+    for ns in sides.iter() {
+        for tube in [false, true] {
+            let (radius, height) = (1.0, 2.0);
+            let base = if tube { Mesh::create_cylinder(radius, height, *ns) } else { ngon_prism(*ns, radius, height) };
+            for (pname, pose) in [("identity", Iso3::identity()), ("R(2,-1,2)1.1rad then +(-2,1.5,0.25)", general)] {
+                let m = moved(&base, &pose);
+                let name = format!("{} with {} sides, radius 1, height 2 ({} faces) in pose {}", if tube { "Mesh::create_cylinder (open tube)" } else { "capped N-gon prism" }, ns, m.faces().len(), pname);
+                mark(r, &name);
+                // normals in the local frame: along the axis, tilted by atan(0.25), atan(0.5) (still between the rims for offsets near the middle), oblique, across
+                let locals = [nv(0.0, 0.0, 1.0), nv(0.0, 0.0, -1.0), nv(0.25, 0.0, 1.0), nv(0.3, -0.4, 1.0), nv(-0.2, 0.1, -1.0), nv(1.0, 0.0, 0.0), nv(1.0, 2.0, 2.0), nv(2.0, -3.0, 6.0)];
+                for (li, nl) in locals.iter().enumerate() {
+                    if *ns > 300 && li >= 6 { continue; }
+                    // the largest one (4200 crossing segments in one loop; chained_indices is quadratic): three normals, identity pose
+                    if *ns > 2000 && (![0usize, 2, 4].contains(&li) || pname != "identity") { continue; }
+                    let n = pose.rotation * nl;
+                    let (sv, lo, hi) = extent(&m, &n);
+                    for kf in [-1.0, 3.0, 7.0, 8.0, 10.0, 13.0, 17.0] {
+                        if *ns > 2000 && [7.0, 10.0, 17.0].contains(&kf) { continue; }
+                        let d = lo + (hi - lo) * kf / 16.0 + (hi - lo) / 1024.0;
+                        if too_close(&sv, d) { continue; }
+                        // the tube is open: only planes that separate the two rims (every bottom vertex below, every top vertex above, or the reverse) are sectioned
+                        if tube {
+                            let lv = base.vertices();
+                            let side_of_bottom = (0..lv.len()).find(|i| lv[*i].z < 0.5 * height).map(|i| sv[i] < d).unwrap_or(true);
+                            let separates = (0..lv.len()).all(|i| (sv[i] < d) == if lv[i].z < 0.5 * height { side_of_bottom } else { !side_of_bottom });
+                            if !separates && kf > 0.0 && kf < 16.0 { continue; }
+                        }
+                        let per = ngon_section_perimeter(base.vertices(), height, &pose, &n, d);
+                        if per.is_some() { closed_form += 1; }
+                        let w = Want { convex: !tube, perimeter: per, commute: if *ns > 300 { &commute3[1..2] } else { &commute3[..] }, flip: true };
+                        let i = check_section2(r, &name, &m, &n, d, None, &w);
+                        if tube && i.nseg > 0 { r.check(i.loops == 1, "section: a tube cut between its rims yields one loop", || format!("{} plane normal ({:?}, {:?}, {:?}) d {:?}: {} curves", name, n.x, n.y, n.z, d, i.loops)); }
+                        if i.nseg > 64 { big_seg += 1; }
+                        check_split2(r, &name, &m, &n, d, true, &commute3[1..2]);
+                    }
+                }
+            }
+        }
+    }
+    r.check(big_seg >= 300 && closed_form >= 300, "coverage: the input space contains sections of more than 64 segments and sections with a closed-form perimeter", || format!("{} sections of more than 64 segments, {} with closed form", big_seg, closed_form));
+    if dbg { eprintln!("b: big_seg {} closed_form {}", big_seg, closed_form); }
+
+    // UV spheres (convex): 8 x 12, 24 x 48 (2208 faces), 200 x 330 (65672 vertices: vertex ids above 2^16, 131340 faces)
+    let (mut sphere_runs, mut sphere_large) = (0usize, 0usize);
+    let mut spheres: Vec<(usize, usize)> = vec![(8, 12), (24, 48), (200, 330)];
+    if thorough() { spheres.push((300, 500)); }
+    for (nlat, nlon) in spheres.iter() {
+        let base = uv_sphere(*nlat, *nlon, 2.0);
+        let large = base.vertices().len() > 10000;
+        for (pname, pose) in [("identity", Iso3::identity()), ("R(2,-1,2)1.1rad then +(-2,1.5,0.25)", general)] {
+            if large && pname != "identity" && !thorough() { continue; }
+            let m = moved(&base, &pose);
+            let name = format!("UV sphere {} x {} radius 2 ({} vertices, {} faces) in pose {}", nlat, nlon, m.vertices().len(), m.faces().len(), pname);
+            mark(r, &name);
+            for (ni, n) in normals7.iter().enumerate() {
+                if large && ni % 2 == 1 { continue; }
+                let (sv, lo, hi) = extent(&m, n);
+                for kf in [-1.0, 0.25, 3.0, 8.0, 13.0, 17.0] {
+                    if large && (kf == 3.0 || kf == -1.0) { continue; }
+                    let d = lo + (hi - lo) * kf / 16.0 + (hi - lo) / 1024.0;
+                    if too_close(&sv, d) { continue; }
+                    let w = Want { convex: true, perimeter: None, commute: if large { &none[..] } else { &commute3[1..2] }, flip: !large };
+                    let i = check_section2(r, &name, &m, n, d, None, &w);
+                    if i.full && i.loops == 1 { sphere_runs += 1; if large { sphere_large += 1; } }
+                    check_split2(r, &name, &m, n, d, !large, &none);
+                }
+            }
+        }
+    }
+    r.check(sphere_runs >= 80 && sphere_large >= 6, "coverage: the input space contains sphere sections, six or more of them on the mesh with vertex ids above 2^16", || format!("{} sphere sections, {} on the large mesh", sphere_runs, sphere_large));
+    if dbg { eprintln!("sphere {} large {}", sphere_runs, sphere_large); }
+
+    // tori (non-convex): planes containing the axis give two congruent loops, planes across the axis two nested loops
+    let (mut torus_two, mut torus_one) = (0usize, 0usize);
+    for (nu, nvv) in [(24usize, 16usize), (64, 40)] {
+        let base = torus(nu, nvv, 3.0, 1.0);
+        for (pname, pose) in [("identity", Iso3::identity()), ("R(2,-1,2)1.1rad then +(-2,1.5,0.25)", general)] {
+            let m = moved(&base, &pose);
+            let name = format!("torus {} x {} radii 3 and 1 ({} faces) in pose {}", nu, nvv, m.faces().len(), pname);
+            mark(r, &name);
+            for nl in [nv(0.0, 0.0, 1.0), nv(1.0, 0.0, 0.0), nv(0.0, -1.0, 0.0), nv(1.0, 1.0, 0.0), nv(1.0, 0.0, 1.0), nv(1.0, 2.0, 2.0), nv(2.0, -3.0, 6.0)] {
+                let n = pose.rotation * nl;
+                let (sv, lo, hi) = extent(&m, &n);
+                for kf in [-1.0, 1.0, 3.0, 5.0, 8.0, 11.0, 15.0, 17.0] {
+                    let d = lo + (hi - lo) * kf / 16.0 + (hi - lo) / 1024.0;
+                    if too_close(&sv, d) { continue; }
+                    let w = Want { convex: false, perimeter: None, commute: &commute3[1..2], flip: nu < 50 };
+                    let i = check_section2(r, &name, &m, &n, d, None, &w);
+                    if i.full && i.loops == 2 { torus_two += 1; }
+                    if i.full && i.loops == 1 { torus_one += 1; }
+                    check_split2(r, &name, &m, &n, d, false, &none);
+                }
+            }
+        }
+    }
+    r.check(torus_two >= 50 && torus_one >= 50, "coverage: the input space contains torus sections of one and of two loops", || format!("{} two-loop, {} one-loop", torus_two, torus_one));
+    if dbg { eprintln!("torus two {} one {}", torus_two, torus_one); }
+
+    // height-field solids: many contours in one section
+    let mut many_contours = 0usize;
+    let mut max_contours = 0usize;
+    let mut grids: Vec<usize> = vec![7, 20, 40];
+    if thorough() { grids.push(90); }
+    for g in grids.iter() {
+        let base = height_solid(*g);
+        for (pname, pose) in [("identity", Iso3::identity()), ("R(2,-1,2)1.1rad then +(-2,1.5,0.25)", general)] {
+            if *g > 30 && pname != "identity" { continue; }
+            let m = moved(&base, &pose);
+            let name = format!("solid under a {} x {} height field ({} faces) in pose {}", g, g, m.faces().len(), pname);
+            mark(r, &name);
+            for nl in [nv(0.0, 0.0, 1.0), nv(0.0, 0.0, -1.0), nv(1.0, 0.0, 0.0), nv(0.05, -0.03, 1.0), nv(1.0, 1.0, 1.0), nv(2.0, -3.0, 6.0)] {
+                let n = pose.rotation * nl;
+                let (sv, lo, hi) = extent(&m, &n);
+                let along_z = nl.z.abs() > 0.9;
+                let mut offs: Vec<f64> = vec![lo - 0.5, hi + 0.5];
+                if along_z && nl.x == 0.0 { for k in [0.0, 3.0, 8.0, 14.0, 17.0, 22.0, 27.0, 30.0] { let z = 1.0 + k / 16.0 + 1.0 / 32.0; offs.push(if nl.z > 0.0 { z } else { -z } + n.dot(&pose.translation.vector)); } offs.push(lo + 0.5); }
+                else { for kf in [1.0, 4.0, 7.0, 9.0, 12.0, 15.0] { offs.push(lo + (hi - lo) * kf / 16.0 + 1.0 / 1024.0); } }
+                for d in offs {
+                    if too_close(&sv, d) { continue; }
+                    let w = Want { convex: false, perimeter: None, commute: if *g > 30 { &none[..] } else { &commute3[1..2] }, flip: *g <= 30 };
+                    let i = check_section2(r, &name, &m, &n, d, None, &w);
+                    if i.full && i.loops >= 5 { many_contours += 1; }
+                    if i.full { max_contours = max_contours.max(i.loops); }
+                    check_split2(r, &name, &m, &n, d, false, &none);
+                }
+            }
+        }
+    }
+    r.check(many_contours >= 40 && max_contours >= 33, "coverage: the input space contains sections of five or more contours and one of more than 32", || format!("{} sections with five or more loops, the largest has {}", many_contours, max_contours));
+    if dbg { eprintln!("contours many {} max {}", many_contours, max_contours); }
+
+    // ---- (5) SHAPE CLASSES: prisms over cell sets (U, comb with 3 and 4 teeth, square ring = nested loops, two separate
+    // pieces), a box inside a box (nested solids), every base solid under 5 other legal numberings, flagged non-solid,
+    // and given as a triangle soup to new_with_options(merge_duplicates = true)
+    let u_shape: Vec<(i32, i32)> = vec![(0, 0), (1, 0), (2, 0), (0, 1), (2, 1), (0, 2), (2, 2)];
+    let comb = |teeth: i32| -> Vec<(i32, i32)> { let mut c: Vec<(i32, i32)> = (0..2 * teeth - 1).map(|x| (x, 0)).collect(); for t in 0..teeth { for y in 1..4 { c.push((2 * t, y)); } } c };
+    let ring: Vec<(i32, i32)> = (0..4).flat_map(|x| (0..4).map(move |y| (x, y))).filter(|(x, y)| !((1..3).contains(x) && (1..3).contains(y))).collect();
+    let two_pieces: Vec<(i32, i32)> = vec![(0, 0), (1, 0), (0, 1), (3, 0), (3, 1), (4, 1)];
+    let mut shapes: Vec<(String, Mesh, usize)> = vec![
+        ("U-shaped prism (cells) x 1.5".to_string(), cells_prism(&u_shape, 1.5), 2),
+        ("comb prism with 3 teeth x 1.5".to_string(), cells_prism(&comb(3), 1.5), 3),
+        ("comb prism with 4 teeth x 0.75".to_string(), cells_prism(&comb(4), 0.75), 4),
+        ("square ring prism (4 x 4 cells without the inner 2 x 2) x 1.5".to_string(), cells_prism(&ring, 1.5), 2),
+        ("two separate cell prisms in one mesh x 1.5".to_string(), cells_prism(&two_pieces, 1.5), 2),
+    ];
+    {
+        // nested solids: box 1 x 1 x 1 at (0.5, 1, 1.5) inside the box 2 x 3 x 4, one mesh
+        let outer = Mesh::create_box(2.0, 3.0, 4.0, true);
+        let inner = moved(&Mesh::create_box(1.0, 1.0, 1.0, true), &Iso3::translation(0.5, 1.0, 1.5));
+        let mut v = outer.vertices().to_vec(); v.extend(inner.vertices().iter().cloned());
+        let mut f = outer.faces().to_vec(); f.extend(inner.faces().iter().map(|t| [t[0] + 8, t[1] + 8, t[2] + 8]));
+        shapes.push(("box 1x1x1 at (0.5,1,1.5) nested in the box 2x3x4 (one mesh)".to_string(), Mesh::new(v, f, true), 2));
+    }
+    let mut most_loops: Vec<usize> = vec![0; shapes.len()];
+    for (si, (sname, base, _)) in shapes.iter().enumerate() {
+        for (pname, pose) in [("identity", Iso3::identity()), ("R(2,-1,2)1.1rad then +(-2,1.5,0.25)", general)] {
+            let m = moved(base, &pose);
+            let name = format!("{} in pose {}", sname, pname);
+            mark(r, &name);
+            for nl in normals17.iter() {
+                let n = pose.rotation * nl;
+                let (sv, lo, hi) = extent(&m, &n);
+                for kf in [-1.0, 1.0, 3.0, 6.0, 9.0, 11.0, 13.0, 15.0, 17.0] {
+                    let d = lo + (hi - lo) * kf / 16.0 + 1.0 / 128.0;
+                    if too_close(&sv, d) { continue; }
+                    let w = Want { convex: false, perimeter: None, commute: &commute3[1..2], flip: true };
+                    let i = check_section2(r, &name, &m, &n, d, None, &w);
+                    if i.full { most_loops[si] = most_loops[si].max(i.loops); }
+                    check_split2(r, &name, &m, &n, d, true, &commute3[1..2]);
+                }
+            }
+        }
+    }
+    r.check(shapes.iter().zip(most_loops.iter()).all(|(s, l)| *l >= s.2), "coverage: every non-convex shape is cut into as many loops as it has prongs / nested outlines by some plane", || format!("{:?}", most_loops));
+    if dbg { eprintln!("shapes {:?}", most_loops); }
+
+    let mut relabel_runs = 0usize;
+    for (mname, base, convex) in base_meshes().iter() {
+        let mut variants: Vec<(String, Mesh)> = (0..5).map(|k| { let (what, m) = relabelled(base, k); (what.to_string(), m) }).collect();
+        variants.push(("flagged non-solid (Mesh::new(.., false))".to_string(), Mesh::new(base.vertices().to_vec(), base.faces().to_vec(), false)));
+        // triangle soup (every face with its own three vertices) merged by new_with_options(merge_duplicates = true)
+        let soup_v: Vec<Point3> = base.faces().iter().flat_map(|t| t.iter().map(|i| base.vertices()[*i as usize]).collect::<Vec<_>>()).collect();
+        let soup_f: Vec<[u32; 3]> = (0..base.faces().len() as u32).map(|k| [3 * k, 3 * k + 1, 3 * k + 2]).collect();
+        for is_solid in [true, false] {
+            match Mesh::new_with_options(soup_v.clone(), soup_f.clone(), is_solid, true, false, None) {
+                Ok(x) => {
+                    // (an unmerged soup is an open mesh for parry: it is not sectioned)
+                    let merged = x.vertices().len() == base.vertices().len() && x.faces().len() == base.faces().len();
+                    r.check(merged, "coverage: a triangle soup given to Mesh::new_with_options(merge_duplicates = true) has its duplicate vertices merged", || format!("{}: {} vertices, {} faces", mname, x.vertices().len(), x.faces().len()));
+                    if merged { variants.push((format!("given as a triangle soup to Mesh::new_with_options(is_solid = {}, merge_duplicates = true)", is_solid), x)); }
+                }
+                Err(_) => r.check(false, "coverage: a triangle soup given to Mesh::new_with_options(merge_duplicates = true) has its duplicate vertices merged", || format!("{}: constructor failed", mname)),
+            }
+        }
+        for (what, vm) in variants.iter() {
+            for (pname, pose) in [("identity", Iso3::identity()), ("R(2,-1,2)1.1rad then +(-2,1.5,0.25)", general)] {
+                let m = moved(vm, &pose);
+                let name = format!("{}, {}, in pose {}", mname, what, pname);
+                mark(r, &name);
+                for n in normals17.iter() {
+                    let (sv, lo, hi) = extent(&m, n);
+                    for d in [lo - 0.5, lo + 1.0 / 4096.0, lo + 0.25, lo + (hi - lo) * 5.0 / 16.0, lo + (hi - lo) * 9.0 / 16.0, hi - 0.25, hi + 0.5] {
+                        if too_close(&sv, d) { continue; }
+                        let w = Want { convex: *convex, perimeter: None, commute: &commute3[1..2], flip: false };
+                        let i = check_section2(r, &name, &m, n, d, None, &w);
+                        if i.full && i.loops >= 1 { relabel_runs += 1; }
+                        check_split2(r, &name, &m, n, d, false, &none);
+                    }
+                }
+            }
+        }
+    }
+    r.check(relabel_runs >= 4000, "coverage: the input space contains sections of renumbered / non-solid / merged-soup meshes", || format!("{}", relabel_runs));
+    if dbg { eprintln!("relabel {}", relabel_runs); }
+
+    // ---- (2) PARAMETER RELATIONS: the curve tolerance `tol` against the shortest crossing segment and against the distance of
+    // the nearest mesh vertex from the plane (parry's on-plane epsilon is the fixed 1e-6, whatever the curve tolerance)
+    let (mut full_near, mut full_far, mut merged) = (0usize, 0usize, 0usize);
+    let tols = [None, Some(0.0), Some(1.0e-12), Some(1.0e-6), Some(1.0e-4), Some(5.0e-3), Some(0.05), Some(0.75), Some(10.0)];
+    for (mname, base, convex) in base_meshes().iter() {
+        for (pname, pose) in [("identity", Iso3::identity()), ("R(2,-1,2)1.1rad then +(-2,1.5,0.25)", general)] {
+            let m = moved(base, &pose);
+            let name = format!("{} in pose {}", mname, pname);
+            mark(r, &name);
+            for nl in normals17.iter() {
+                let n = pose.rotation * nl;
+                let (sv, lo, hi) = extent(&m, &n);
+                // 0.004 / 0.03 / 0.3 inside either end: mesh vertices closer to the plane than the larger tolerances
+                for d in [lo + 0.004, hi - 0.004, lo + 0.03, hi - 0.03, lo + 0.3, lo + 1.0 / 4096.0, lo + (hi - lo) * 7.0 / 16.0, lo + (hi - lo) * 9.0 / 16.0] {
+                    if too_close(&sv, d) { continue; }
+                    for tol in tols.iter() {
+                        let w = Want { convex: *convex, perimeter: None, commute: &commute3[1..2], flip: false };
+                        let i = check_section2(r, &name, &m, &n, d, *tol, &w);
+                        if i.skipped { continue; }
+                        if i.full && i.near && i.loops >= 1 { full_near += 1; }
+                        if i.full && !i.near && i.loops >= 1 { full_far += 1; }
+                        if !i.full { merged += 1; }
+                    }
+                }
+            }
+        }
+    }
+    r.check(full_near >= 150 && full_far >= 4000 && merged >= 2000, "coverage: the input space contains curve tolerances below the shortest crossing segment with a mesh vertex closer to the plane than the tolerance, tolerances below both, and tolerances at or above the shortest segment", || format!("{} / {} / {}", full_near, full_far, merged));
+    if dbg { eprintln!("tol {} {} {}", full_near, full_far, merged); }
+
+
+    // ---- (3) EXACT TIES (robustness probes): planes through every triple of vertices of the box 2x3x4, the cube 2, the prism,
+    // the tetrahedron and the L-prism, in both orientations, in two exact poses; offsets bit-equal to the smallest / largest
+    // vertex distance and one ulp either side of them for the 17 normals
+    let (mut through, mut through_curves, mut guarded) = (0usize, 0usize, 0usize);
+    let mut solids: Vec<(String, Mesh)> = base_meshes().into_iter().map(|(a, b, _)| (a.to_string(), b)).collect();
+    solids.push(("cube 2".to_string(), Mesh::create_box(2.0, 2.0, 2.0, true)));
+    let exact_poses = [("identity", Iso3::identity()), ("+(3,-5,2)", Iso3::translation(3.0, -5.0, 2.0))];
+    for (sname, base) in solids.iter() {
+        for (pname, pose) in exact_poses.iter() {
+            let m = moved(base, pose);
+            let name = format!("{} in pose {}", sname, pname);
+            mark(r, &name);
+            let v = m.vertices().to_vec();
+            let mut seen: Vec<(Vector3, f64)> = vec![];
+            for i in 0..v.len() { for j in i + 1..v.len() { for k in j + 1..v.len() {
+                let raw = (v[j] - v[i]).cross(&(v[k] - v[i]));
+                if raw.norm() == 0.0 { continue; }
+                let n = raw.normalize();
+                let d = raw.dot(&v[i].coords) / raw.norm();
+                if seen.iter().any(|(n2, d2)| ((n2 - n).norm() < 1e-12 && (d2 - d).abs() < 1e-12) || ((n2 + n).norm() < 1e-12 && (d2 + d).abs() < 1e-12)) { continue; }
+                seen.push((n, d));
+                for (nn, dd) in [(n, d), (-n, -d)] {
+                    let k = probe_through(r, &name, &m, &nn, dd, true);
+                    if k == usize::MAX { guarded += 1; } else { through += 1; through_curves += k; }
+                }
+            } } }
+            for n in normals17.iter() {
+                let (_, lo, hi) = extent(&m, n);
+                for d in [lo, next_up(lo), next_down(lo), hi, next_up(hi), next_down(hi), lo + 0.5e-6, hi - 0.5e-6, lo + 2.0e-6, hi - 2.0e-6] {
+                    let k = probe_through(r, &name, &m, n, d, d == lo || d == hi);
+                    if k == usize::MAX { guarded += 1; } else { through += 1; }
+                }
+            }
+        }
+    }
+    if dbg { eprintln!("through {} curves {} guarded {}", through, through_curves, guarded); }
+    r.check(through >= 2000 && through_curves >= 300 && guarded >= 40 && guarded <= 60, "coverage: the input space contains planes exactly through mesh vertices, a good part of them with a section; the planes on which parry 0.18 would not return (a mesh edge in the plane that the plane does not cross: all on the L-prism) are recognised and not run", || format!("{} planes, {} curves, {} not run", through, through_curves, guarded));
+
+    // ---- (4) SEQUENCES: the same section twice; a section before and after a split and a section by another plane (the mesh
+    // is not changed by either); the halves of a split, split again by the same plane, are wholly on their own sides; the
+    // halves split by a second plane conserve their own area
+    let mut seq = 0usize;
+    for (mname, base, _) in base_meshes().iter() {
+        for (pname, pose) in [("identity", Iso3::identity()), ("R(2,-1,2)1.1rad then +(-2,1.5,0.25)", general)] {
+            let m = moved(base, &pose);
+            let name = format!("{} in pose {}", mname, pname);
+            mark(r, &name);
+            for n in normals17.iter() {
+                let (sv, lo, hi) = extent(&m, n);
+                for kf in [3.0, 7.0, 10.0] {
+                    let d = lo + (hi - lo) * kf / 16.0;
+                    if too_close(&sv, d) { continue; }
+                    let desc = || format!("{} plane normal ({:?}, {:?}, {:?}) d {:?}", name, n.x, n.y, n.z, d);
+                    r.case();
+                    let pl = plane(n, d);
+                    let bits = |c: &Vec<Curve3>| -> Vec<Vec<[u64; 3]>> { c.iter().map(|x| x.points().iter().map(|p| [p.x.to_bits(), p.y.to_bits(), p.z.to_bits()]).collect()).collect() };
+                    let first = match m.section(&pl, None) { Ok(c) => c, Err(_) => { r.check(false, "section: returns Ok", desc); continue; } };
+                    let again = m.section(&pl, None).unwrap_or_default();
+                    r.check(bits(&first) == bits(&again), "section: the same mesh and plane twice yield the same curves (deterministic)", desc);
+                    let other = nv(n.y + 0.3, n.z - 0.2, n.x + 0.1);
+                    let (osv, olo, ohi) = extent(&m, &other);
+                    let od = olo + (ohi - olo) * 0.4375;
+                    let halves = m.split(&pl);
+                    let _ = m.section(&plane(&other, od), Some(1.0e-3));
+                    let after = m.section(&pl, None).unwrap_or_default();
+                    r.check(bits(&first) == bits(&after), "section: unchanged by an intervening split and a section by another plane (the mesh is not modified)", desc);
+                    if let SplitResult::Pair(a, b) = halves {
+                        seq += 1;
+                        let va = matches!(a.split(&pl), SplitResult::Negative);
+                        let vb = matches!(b.split(&pl), SplitResult::Positive);
+                        r.check(va, "split: the first mesh, split again by the same plane, is reported wholly on the negative side", desc);
+                        r.check(vb, "split: the second mesh, split again by the same plane, is reported wholly on the positive side", desc);
+                        if !too_close(&osv, od) {
+                            for (hn, h) in [("negative half", &a), ("positive half", &b)] {
+                                if too_close(&extent(h, &other).0, od) { continue; }
+                                check_split2(r, &format!("{} of {} cut by normal ({:?}, {:?}, {:?}) d {:?}", hn, name, n.x, n.y, n.z, d), h, &other, od, true, &none);
+                            }
+                        }
+                    } else {
+                        r.check(false, "split: yields two meshes when the plane crosses the mesh", desc);
+                    }
+                }
+            }
+        }
+    }
+    r.check(seq >= 300, "coverage: the input space contains split-then-split sequences", || format!("{}", seq));
+    if dbg { eprintln!("seq {}", seq); }
 }
